@@ -91,11 +91,11 @@ Section Lex.
     rewrite Hlk, Hs in Havoid. destruct (csegs (e_name l)); [contradiction|discriminate].
   Qed.
 
-  Lemma entry_LP fs tg e st' err :
-    In e es -> INV cfg fs -> LP fs -> unpack_entry cfg req (fs, tg) e = (st', err) -> LP (fst st').
+  Lemma entry_LP final fs tg e st' err :
+    In e es -> INV cfg fs -> LP fs -> unpack_entry cfg req final (fs, tg) e = (st', err) -> LP (fst st').
   Proof.
     intros He HI HLP H. pose proof (ds_ok cfg dir_ok) as Hds. fold ds in Hds.
-    destruct (unpack_entry_full cfg req dir_ok fs tg e st' err HI H) as (_ & _ & _ & HNL).
+    destruct (unpack_entry_full cfg req dir_ok final fs tg e st' err HI H) as (_ & _ & _ & HNL).
     intros p t Hs Hl. destruct (HNL p t Hl) as [Hold|Hnew]; [apply HLP; assumption|].
     destruct Hnew as (Hlk & Hns & Htor & -> & cs & m1 & m2 & last & r & Hcs & Hj & Ecs & Hr & ->).
     fold ds in Hj, Hr.
@@ -127,17 +127,17 @@ Section Lex.
     rewrite Er, Ecs, <- !app_assoc. reflexivity.
   Qed.
 
-  Lemma pass_LP : forall es' fs tg st' err,
-    incl es' es -> INV cfg fs -> LP fs -> unpack_pass cfg req (fs, tg) es' = (st', err) ->
+  Lemma pass_LP final : forall es' fs tg st' err,
+    incl es' es -> INV cfg fs -> LP fs -> unpack_pass cfg req final (fs, tg) es' = (st', err) ->
     INV cfg (fst st') /\ LP (fst st').
   Proof.
     induction es' as [|e es' IH]; intros fs tg st' err Hinc HI HLP H.
     - cbn in H. injection H as <- _. auto.
     - cbn [unpack_pass] in H.
-      destruct (unpack_entry cfg req (fs, tg) e) as [[fs1 tg1] err1] eqn:E1.
+      destruct (unpack_entry cfg req final (fs, tg) e) as [[fs1 tg1] err1] eqn:E1.
       assert (He : In e es) by (apply Hinc; left; reflexivity).
-      pose proof (entry_LP fs tg e _ _ He HI HLP E1) as HLP1.
-      destruct (unpack_entry_full cfg req dir_ok fs tg e _ _ HI E1) as (HI1 & _). cbn [fst] in *.
+      pose proof (entry_LP final fs tg e _ _ He HI HLP E1) as HLP1.
+      destruct (unpack_entry_full cfg req dir_ok final fs tg e _ _ HI E1) as (HI1 & _). cbn [fst] in *.
       destruct err1; [injection H as <- _; auto|].
       eapply IH; eauto. intros x Hx. apply Hinc. right. exact Hx.
   Qed.
@@ -148,8 +148,8 @@ Section Lex.
     induction n as [|n IH]; intros fs tg st' err HI HLP H.
     - cbn in H. injection H as <- _. auto.
     - cbn [unpack_passes] in H.
-      destruct (unpack_pass cfg req (fs, tg) es) as [[fs1 tg1] err1] eqn:E1.
-      destruct (pass_LP es fs tg _ _ (incl_refl es) HI HLP E1) as (HI1 & HLP1). cbn [fst] in *.
+      destruct (unpack_pass cfg req match n with O => true | _ => false end (fs, tg) es) as [[fs1 tg1] err1] eqn:E1.
+      destruct (pass_LP _ es fs tg _ _ (incl_refl es) HI HLP E1) as (HI1 & HLP1). cbn [fst] in *.
       destruct err1; [injection H as <- _; auto|]. eapply IH; eauto.
   Qed.
 
